@@ -33,7 +33,8 @@
 (***************************************************************************)
 EXTENDS SplitSem, Json
 
-CONSTANTS MaxBr, MaxN, Kinds, BufSizes
+CONSTANTS MaxBr, MaxN, Kinds, BufSizes,
+          MaxRuns   \* the same Split object is run MaxRuns times over the same flow (elements reset in between)
 
 RECURSIVE Seqs(_)
 Seqs(n) == IF n = 0 THEN {<<>>}
@@ -45,29 +46,31 @@ VARIABLES brs, N, bs,         \* scenario
           pos, buf,           \* values read so far; current block
           active, ind,        \* list of active branch numbers; index into it
           st,                 \* per branch [filled, nf]
-          out, phase, empty
-vars == <<brs, N, bs, pos, buf, active, ind, st, out, phase, empty>>
+          out, phase, empty,
+          runs                \* number of the current run of this Split object
+vars == <<brs, N, bs, pos, buf, active, ind, st, out, phase, empty, runs>>
 
 Init == /\ brs \in Seqs(MaxBr) /\ N \in 0..MaxN /\ bs \in BufSizes
         /\ pos = 0 /\ buf = <<>> /\ active = [i \in 1..Len(brs) |-> i] /\ ind = 1
         /\ st = [i \in 1..Len(brs) |-> [filled |-> <<>>, nf |-> 0]]
         /\ out = <<>> /\ phase = (IF brs = <<>> THEN "identity" ELSE "read") /\ empty = TRUE
+        /\ runs = 1
 
 RemoveAt(s, i) == [j \in 1..(Len(s) - 1) |-> IF j < i THEN s[j] ELSE s[j + 1]]
 
 Identity == /\ phase = "identity"
             /\ IF pos < N THEN /\ out' = Append(out, Tag(0, "id", <<pos>>)) /\ pos' = pos + 1 /\ UNCHANGED phase
                ELSE /\ phase' = "done" /\ UNCHANGED <<out, pos>>
-            /\ UNCHANGED <<brs, N, bs, buf, active, ind, st, empty>>
+            /\ UNCHANGED <<brs, N, bs, buf, active, ind, st, empty, runs>>
 
 ReadBlock == /\ phase = "read"
              /\ LET k == IF bs = None THEN N - pos ELSE Min(bs, N - pos) IN
                 IF k = 0 THEN /\ phase' = "final" /\ UNCHANGED <<pos, buf, empty>>
                 ELSE /\ buf' = [j \in 1..k |-> pos + j - 1] /\ pos' = pos + k
                      /\ phase' = "branches" /\ empty' = FALSE
-             /\ ind' = 1 /\ UNCHANGED <<brs, N, bs, active, st, out>>
+             /\ ind' = 1 /\ UNCHANGED <<brs, N, bs, active, st, out, runs>>
 
-Fixed == UNCHANGED <<brs, N, bs, pos, buf, empty>>
+Fixed == UNCHANGED <<brs, N, bs, pos, buf, empty, runs>>
 BranchSrc == /\ Fixed /\ phase = "branches" /\ ind <= Len(active) /\ brs[active[ind]].t = "src"
              /\ out' = out \o SrcOut(active[ind]) /\ active' = RemoveAt(active, ind)
              /\ UNCHANGED <<ind, st, phase>>
@@ -100,9 +103,22 @@ FinalOut(as) ==
         [] kind.t = "fr" -> IF empty THEN <<Tag(b, "r", <<>>)>> ELSE <<>>
         [] OTHER -> IF empty THEN SeqRun(b, kind, <<>>) ELSE <<>>) \o FinalOut(Tail(as))
 Final == /\ phase = "final" /\ out' = out \o FinalOut(active) /\ phase' = "done"
-         /\ UNCHANGED <<brs, N, bs, pos, buf, active, ind, st, empty>>
+         /\ UNCHANGED <<brs, N, bs, pos, buf, active, ind, st, empty, runs>>
 
-Next == Identity \/ ReadBlock \/ BranchSrc \/ BranchFC \/ BranchFR \/ BranchSeq \/ BlockDone \/ Final
+(***************************************************************************)
+(* The active list is a per-run copy (`self._seqs[:]`): dropping a Source  *)
+(* or a stopped fill branch holds for the current run only.  Rerun starts  *)
+(* the same Split object again on the same flow, with the (harness)        *)
+(* elements reset: every branch is active again.                           *)
+(***************************************************************************)
+Rerun == /\ phase = "done" /\ runs < MaxRuns
+         /\ runs' = runs + 1 /\ pos' = 0 /\ buf' = <<>> /\ ind' = 1
+         /\ active' = [i \in 1..Len(brs) |-> i]
+         /\ st' = [i \in 1..Len(brs) |-> [filled |-> <<>>, nf |-> 0]]
+         /\ out' = <<>> /\ phase' = (IF brs = <<>> THEN "identity" ELSE "read") /\ empty' = TRUE
+         /\ UNCHANGED <<brs, N, bs>>
+
+Next == Identity \/ ReadBlock \/ BranchSrc \/ BranchFC \/ BranchFR \/ BranchSeq \/ BlockDone \/ Final \/ Rerun
 Spec == Init /\ [][Next]_vars
 Done == phase = "done"
 
@@ -138,5 +154,7 @@ Cat(ss) == IF ss = <<>> THEN <<>> ELSE Head(ss).p \o Cat(Tail(ss))
 FRAccount == Done => \A b \in 1..Len(brs) : brs[b].t = "fr" =>
                Cat(Proj(out, b)) = (IF brs[b].stop = None THEN Iota(N) ELSE Iota(Min(N, brs[b].stop)))
 
-Emitted == Done => PrintT(ToJson([brs |-> brs, N |-> N, bs |-> bs, out |-> out]))
+\* every run of the same object starts with all branches active
+AllActiveAtStart == (phase \in {"read", "identity"} /\ pos = 0) => active = [i \in 1..Len(brs) |-> i]
+Emitted == (Done /\ runs = MaxRuns) => PrintT(ToJson([brs |-> brs, N |-> N, bs |-> bs, out |-> out]))
 =============================================================================
